@@ -33,11 +33,16 @@ def user_paths():
 
 # ------------------------------------------------------------------ inputs
 def c_text(i, bad=False, e_mode=False):
-    if bad:
+    """bad = "bad": rejected by the parser (under -E: by the preprocessor);
+    bad = "badgen": valid syntax and types, rejected only inside codegen() (codegen.c gen_addr:
+    "not an lvalue"), after the functions before it have been emitted; an ordinary source under -E"""
+    if bad == "bad" or bad is True:
         return "#error bad input %d\n" % i if e_mode else "int f%d(void) { return %d +; }}\n" % (i, i)
     t = "int f%d(void) { return %d; }\n" % (i, i)
     if i == 1 and not e_mode:
         t += "int main(void) { return 0; }\n"
+    if bad == "badgen":
+        t += "void h%d(void) { 1 = f%d(); }\n" % (i, i)
     return t
 
 
@@ -306,10 +311,10 @@ def populate(inputs, b, cwd, outs=("out1",)):     # outs: -o paths whose directo
         names.add(n)
         if b["df"]["i"] == i and b["df"]["t"] == "missing":
             continue
-        bad = b["df"]["i"] == i and b["df"]["t"] == "bad"
+        bad = b["df"]["t"] if b["df"]["i"] == i and b["df"]["t"] in ("bad", "badgen") else False
         data = inputs.content(i, k, b["mode"], bad)
         open(os.path.join(cwd, n), "wb").write(data)
-        orig[n] = (data, "bad" if bad else "src")
+        orig[n] = (data, bad or "src")
     if b["pre"] == "old":
         for p in [x for x in user_paths() if x != "out1"] + list(outs):
             if p not in names:
@@ -440,7 +445,7 @@ def ev_summary(mode, ev, before=()):
         return "drvopen:" + ("tmp-without-O_EXCL" if ev["p"].startswith("foreign:/tmp/chibicc-") else cls(ev["p"]))
     if k == "final":
         return "final:" + ",".join("%s=%s" % (r["p"] if not re.fullmatch(r"t\d+", r["p"]) else "tmp", r["c"]) for r in ev["fs"]
-                                   if r["c"] not in ("src", "bad", "old"))
+                                   if r["c"] not in ("src", "bad", "badgen", "old"))
     return k
 
 
@@ -529,14 +534,14 @@ def expected_two(b1, b2):
     for p in [x for x in user_paths() if x != "out1"] + ["out1", "out2"]:
         if p in names:
             i = int(p[2])
-            init[p] = ("absent" if b1["df"]["t"] == "missing" else "bad") if b1["df"]["i"] == i else "src"
+            init[p] = ("absent" if b1["df"]["t"] == "missing" else b1["df"]["t"]) if b1["df"]["i"] == i else "src"
         else:
             init[p] = b1["pre"]
     exp = {}
     for p in init:
         a = f1.get(p, "absent") if p != "out2" else init[p]
         c = f2.get(p, "absent") if p != "out1" else init[p]
-        cl = lambda t: t if t in ("absent", "src", "bad", "old") else t[0]
+        cl = lambda t: t if t in ("absent", "src", "bad", "badgen", "old") else t[0]
         a, c = cl(a), cl(c)
         if p == "out1" and b1["fault"]["t"] == "unwritable" or p == "out2" and b2["fault"]["t"] == "unwritable":
             exp[p] = {"absent"}
@@ -628,6 +633,8 @@ def controls(ctx, errors):
         r = ctx.tlc("driver", "Driver", cfg, workers=1, count=False, deque=True)
         if r.ok or r.violated != inv:
             raise Infra("sensitivity control failed: model with %s=%s should violate %s, TLC says %s" % (name, val, inv, r.violated))
+        if name == "Buffered" and '"badgen"' not in r.trace_text():
+            raise Infra("sensitivity control failed: the unbuffered front end must be rejected through an input that fails in codegen()")
     def live(t):
         nd, maxin = t
         cfg = ctx.cfg("driver", "Driver_live.cfg", name="live%d" % nd, ND=nd, MaxIn=maxin)
